@@ -69,6 +69,12 @@ func main() {
 			repo = os.Args[3]
 		}
 		os.Exit(runCheck(r.Property, "quick", repo, r.Rule+":"+r.Construct))
+	case "checkall":
+		// development aid: load once, decide every property (evidence goes to VERIF_DIR like `check`)
+		fs := flag.NewFlagSet("checkall", flag.ExitOnError)
+		repo := fs.String("repo", "/repo", "repository root")
+		fs.Parse(os.Args[2:])
+		os.Exit(runAll(*repo))
 	case "manifest":
 		writeManifest()
 	case "list":
@@ -83,6 +89,38 @@ func main() {
 	default:
 		usage()
 	}
+}
+
+func runAll(repo string) (code int) {
+	defer func() {
+		if r := recover(); r != nil {
+			fmt.Printf("bwcheck: internal error in the checker: %v\n%s\n", r, debug.Stack())
+			code = 2
+		}
+	}()
+	c, err := Load(repo, "quick")
+	if err != nil {
+		fmt.Printf("bwcheck: %v\n", err)
+		return 2
+	}
+	var ids []string
+	for id := range properties {
+		ids = append(ids, id)
+	}
+	sort.Strings(ids)
+	for _, id := range ids {
+		start := time.Now()
+		c.Obls, c.RuleStats, c.funcsAnalysed, c.curRule = nil, map[string]*RuleStat{}, map[string]bool{}, ""
+		for _, r := range properties[id].Rules {
+			r(c)
+		}
+		rc := c.Finish(properties[id], start, 0, map[string]any{})
+		fmt.Printf("%s exit=%d\n", id, rc)
+		if rc > code {
+			code = rc
+		}
+	}
+	return code
 }
 
 func runCheck(id, tier, repo, only string) (code int) {
